@@ -35,6 +35,7 @@ class Ctx:
         self.i = 0
         self.scratch = scratch
         self._cache = {}
+        self.notes = []  # labels of what the argument strategies produced (become classes of the case)
 
     def k(self) -> int:
         v = self.ints[self.i % len(self.ints)]
@@ -294,6 +295,75 @@ def cols_(maxn=3):
 
 def covs_(maxn=3):
     return lambda c: c.some(c.covs, maxn, fallback='WGT')
+
+
+def rv_blocks(c):
+    """names of the joint distributions (blocks) of the current model"""
+
+    def f():
+        return [list(d.names) for d in c.m.random_variables if len(d.names) >= 2]
+
+    return c._get('blocks', f)
+
+
+def colliding_rv_name(c):
+    """-> (name, label): an existing random variable name, preferably a first / middle / last member of a block"""
+    blocks = rv_blocks(c)
+    if blocks and c.k() % 4:
+        b = c.pick(blocks)
+        pos = c.k() % 3
+        if pos == 0:
+            return b[0], 'first-of-block'
+        if pos == 1:
+            return b[len(b) // 2] if len(b) > 2 else b[0], ('middle-of-block' if len(b) > 2 else 'first-of-block')
+        return b[-1], 'last-of-block'
+    names = c.etas + c.epss
+    if not names:
+        return 'ETA_1', 'no-rv'
+    return c.pick(names), 'single-rv'
+
+
+def new_rv_names(count_from=None, default_n=1):
+    """strategy for `eta_names`-like arguments: None, fresh names, or names colliding with existing random variables
+    (first / middle / last member of a block, a single rv, a repeat inside the list); the number of names follows the
+    list chosen for `count_from` when that is known"""
+
+    def f(c):
+        n = default_n
+        chosen = c._cache.get('arg:' + count_from) if count_from else None
+        if isinstance(chosen, (list, tuple)):
+            n = max(1, len(chosen))
+        elif isinstance(chosen, str):
+            n = 1
+        k = c.k() % 5
+        if k == 0:
+            return None
+        fresh = [f'ETA_NEW{j + 1}' for j in range(n)]
+        if k == 1:
+            c.notes.append('new-rv-names:fresh')
+            return fresh
+        if k == 2 and n >= 2:
+            c.notes.append('new-rv-names:repeat-inside-list')
+            return [fresh[0]] * n
+        name, label = colliding_rv_name(c)
+        c.notes.append('new-rv-names:collides-with:' + label)
+        at = c.k() % n
+        out = list(fresh)
+        out[at] = name
+        return out
+
+    return f
+
+
+def remember(key, p):
+    """provider wrapper: remembers the produced value so that later parameters can follow it"""
+
+    def f(c):
+        v = p(c)
+        c._cache['arg:' + key] = v
+        return v
+
+    return f
 
 
 def str_or_list(p_list):
@@ -784,13 +854,24 @@ def _occ_col(c):
 
 
 # ---- random effects --------------------------------------------------------------------------------------
-E('add_iiv', **T, list_of_parameters=str_or_list(ipars_(2)), expression=lit('exp', 'add', 'prop', 'log', 're_log'), operation=lit('*', '+'), initial_estimate=num(0.09, 0.3))
-E('add_iov', **T, occ=_occ_col, list_of_parameters=opt(str_or_list(ipars_(2)), 2), eta_names=const(None))
+E('add_iiv', **T, eta_names=new_rv_names('list_of_parameters'), list_of_parameters=remember('list_of_parameters', str_or_list(ipars_(2))), expression=lit('exp', 'add', 'prop', 'log', 're_log'), operation=lit('*', '+'), initial_estimate=num(0.09, 0.3))
+def _iov_eta_names(c):
+    """add_iov wants one name per eta and category"""
+    lp = c._cache.get('arg:list_of_parameters')
+    npar = len(lp) if isinstance(lp, (list, tuple)) else 1
+    try:
+        ncat = int(c.m.dataset[c._cache.get('arg:occ')].nunique())
+    except Exception:
+        ncat = 2
+    return new_rv_names(default_n=max(1, npar * ncat))(c)
+
+
+E('add_iov', **T, occ=remember('occ', _occ_col), list_of_parameters=remember('list_of_parameters', opt(str_or_list(ipars_(2)), 2)), eta_names=_iov_eta_names)
 E('add_pk_iiv', **T, initial_estimate=num(0.09, 0.2))
 E('add_pd_iiv', **T, initial_estimate=num(0.09, 0.2))
 E('remove_iiv', **T, to_remove=opt(str_or_list(lambda c: c.some(c.etas + c.ipars, 2)), 3))
 E('remove_iov', **T, to_remove=opt(str_or_list(etas_(2)), 2))
-E('create_joint_distribution', **T, rvs=opt(etas_(3), 3), individual_estimates=opt(s_ie, 2))
+E('create_joint_distribution', **T, rvs=opt(lambda c: c.some(c.etas, 3, minn=2), 4), individual_estimates=opt(s_ie, 2))
 E('split_joint_distribution', **T, rvs=opt(str_or_list(etas_(2)), 2))
 E('transform_etas_boxcox', **T, list_of_etas=opt(str_or_list(etas_(2)), 3))
 E('transform_etas_john_draper', **T, list_of_etas=opt(str_or_list(etas_(2)), 3))
@@ -804,7 +885,16 @@ E('set_additive_error_model', **T, dv=DV, data_trans=opt(lit('log(Y)', 'Y'), 2),
 E('set_combined_error_model', **T, dv=DV, data_trans=opt(lit('log(Y)', 'Y'), 2))
 E('set_proportional_error_model', **T, dv=DV, data_trans=opt(lit('log(Y)', 'Y'), 2))
 E('set_dtbs_error_model', **T)
-E('set_iiv_on_ruv', **T, dv=DV, list_of_eps=opt(str_or_list(epss_(2)), 2), eta_names=const(None))
+def _ruv_eta_names(c):
+    le = c._cache.get('arg:list_of_eps')
+    n = len(le) if isinstance(le, (list, tuple)) else (1 if isinstance(le, str) else max(1, len(c.epss)))
+    v = new_rv_names(default_n=n)(c)
+    if v is not None and c.k() % 2:
+        return v[:1]  # same_eta=True uses a single name
+    return v
+
+
+E('set_iiv_on_ruv', **T, dv=DV, list_of_eps=remember('list_of_eps', opt(str_or_list(epss_(2)), 2)), eta_names=_ruv_eta_names)
 E('set_power_on_ruv', **T, dv=DV, list_of_eps=opt(str_or_list(epss_(2)), 2), lower_limit=opt(num(0.01, 0.5), 2), ipred=opt(sym, 2))
 E('set_time_varying_error_model', **T, cutoff=num(1.0, 2.5, 100.0), idv=lit('TIME', 'TAD', 'WGT'), dv=DV)
 E('set_weighted_error_model', **T)
@@ -969,6 +1059,78 @@ def _tools():
         finally:
             shutil.rmtree(path, ignore_errors=True)
 
+    def f_rvs_direct(model, how, name, block, level):
+        """RandomVariables.create / + / replace with one more distribution whose (first) name is `name`; the result goes
+        back into a model (documented behaviour for a name that is taken: ValueError)"""
+        from pharmpy.basic import Expr
+        from pharmpy.model import JointNormalDistribution, NormalDistribution, Parameter, RandomVariables
+
+        rvs = model.random_variables
+        if block:
+            names = [name, name + '_B'] if block == 1 else ['ZZ_A', name] if block == 2 else [name, name]
+            var = [[Expr.symbol('C06_OM1'), Expr.symbol('C06_OM21')], [Expr.symbol('C06_OM21'), Expr.symbol('C06_OM2')]]
+            dist = JointNormalDistribution.create(names, level, [0, 0], var)
+            newp = [Parameter.create('C06_OM1', 0.1), Parameter.create('C06_OM21', 0.01), Parameter.create('C06_OM2', 0.1)]
+        else:
+            dist = NormalDistribution.create(name, level, 0, Expr.symbol('C06_OM1'))
+            newp = [Parameter.create('C06_OM1', 0.1)]
+        if how == 'create':
+            new = RandomVariables.create(list(rvs) + [dist], rvs.eta_levels, rvs.epsilon_levels)
+        elif how == 'create-front':
+            new = RandomVariables.create([dist] + list(rvs), rvs.eta_levels, rvs.epsilon_levels)
+        elif how == 'add':
+            new = rvs + dist
+        elif how == 'radd':
+            new = dist + rvs
+        elif how == 'add-list':
+            new = rvs + [dist]
+        elif how == 'add-rvs':
+            new = rvs + RandomVariables.create([dist], rvs.eta_levels, rvs.epsilon_levels)
+        else:
+            new = rvs.replace(dists=tuple(rvs) + (dist,))
+        return model.replace(random_variables=new, parameters=model.parameters + newp)
+
+    def _rv_name(c):
+        k = c.k() % 4
+        if k == 0:
+            c.notes.append('direct-rv-name:fresh')
+            return 'ETA_C06'
+        name, label = colliding_rv_name(c)
+        c.notes.append('direct-rv-name:collides-with:' + label)
+        return name
+
+    def f_params_direct(model, how, name):
+        """Parameters.create / + / replace with one more parameter called `name`"""
+        from pharmpy.model import Parameter, Parameters
+
+        ps = model.parameters
+        p = Parameter.create(name, 0.5)
+        if how == 'create':
+            new = Parameters.create(list(ps) + [p])
+        elif how == 'add':
+            new = ps + p
+        elif how == 'radd':
+            new = p + ps
+        elif how == 'add-list':
+            new = ps + [p]
+        elif how == 'add-parameters':
+            new = ps + Parameters.create([p])
+        else:
+            new = ps.replace(parameters=tuple(ps) + (p,))
+        return model.replace(parameters=new)
+
+    def _par_name(c):
+        if c.k() % 3 == 0:
+            c.notes.append('direct-parameter-name:fresh')
+            return 'THETA_C06'
+        c.notes.append('direct-parameter-name:collides')
+        return c.pick(c.pops, fallback='THETA_C06')
+
+    E(
+        'RandomVariables.create/+/replace', fn=f_rvs_direct, **T, how=lit('create', 'create-front', 'add', 'radd', 'add-list', 'add-rvs', 'replace'),
+        name=_rv_name, block=num(0, 0, 1, 2, 3), level=lit('iiv', 'iiv', 'iiv', 'ruv'),
+    )
+    E('Parameters.create/+/replace', fn=f_params_direct, **T, how=lit('create', 'add', 'radd', 'add-list', 'add-parameters', 'replace'), name=_par_name)
     E('Model.update_source', fn=f_update_source, **T)
     E('Model.write_files', fn=f_write_files, **T, path=scratch_file('.mod'))
     E('Model.to_dict/from_dict', fn=f_to_from_dict, **T)
@@ -1058,6 +1220,12 @@ PREFER['split_joint_distribution'] = dict(starts=('pheno_block', 'mox1'))
 PREFER['update_initial_individual_estimates'] = dict(starts=('pheno_etas', 'linbase_pred'))
 
 
+# histories for the enumerated part of C06: a joint distribution (block of 2-3 etas) first, then functions that
+# take names for new random variables / build RandomVariables directly
+COLLISION_STARTS = ('pheno', 'pheno_real', 'mox2', 'pheno_block', 'basic_oral', 'pheno_noifs')
+COLLISION_FUNCS = ('add_iiv', 'set_iiv_on_ruv', 'add_iov', 'RandomVariables.create/+/replace')
+
+
 def names():
     _ensure()
     return sorted(TABLE)
@@ -1143,8 +1311,14 @@ def signature(entry: Entry):
     return _sig_cache[entry.name]
 
 
+LAST_NOTES = []
+
+
 def build(name: str, model, ints, scratch: str):
-    """-> (entry, kwargs) with the model parameter omitted (call as fn(model, **kwargs))"""
+    """-> (entry, kwargs) with the model parameter omitted (call as fn(model, **kwargs)); the notes of the argument
+    strategies of this call are left in LAST_NOTES"""
+    global LAST_NOTES
+    LAST_NOTES = []
     _ensure()
     entry = TABLE[name]
     fn = entry.resolve()
@@ -1172,6 +1346,7 @@ def build(name: str, model, ints, scratch: str):
         raise HarnessError(f'{name}: strategies for unknown parameters {sorted(unknown)}')
     if entry.extra is not None:
         kwargs.update(entry.extra(c))
+    LAST_NOTES = list(c.notes)
     return entry, kwargs
 
 
